@@ -60,11 +60,14 @@ inductive LenTest where
   | noTest
 deriving DecidableEq, Repr, Inhabited
 
-/-- extracted shape of `gds_validate_simple_patterns`: `all(any(test(fn(p, str(target))) for p in g) for g in patterns)` -/
+/-- extracted shape of `gds_validate_simple_patterns`: `all(any(test(fn(p, str(target)[, re.ASCII])) for p in g) for g in patterns)`.
+    `ascii`: the call passes `re.ASCII`, i.e. `\s` is `[ \t\n\r\f\v]` (and `\d`, `\w` would be ASCII; the schema's
+    patterns use neither) instead of `str.isspace` -/
 structure PatCheck where
   fn : ReFn
   strTarget : Bool
   test : LenTest
+  ascii : Bool
 deriving DecidableEq, Repr, Inhabited
 
 inductive Cmp where
@@ -116,13 +119,61 @@ def refEngine : Engine := fun r fn s =>
     | some t => if accepts r t then some t else none
     | none => none
 
+/-! ### the three readings of `\s` -/
+
+/-- XSD `\s` -/
+def xsdSpace (c : Char) : Bool := c.toNat == 32 || c.toNat == 9 || c.toNat == 10 || c.toNat == 13
+
+def xsdSpaceRanges : List (Nat × Nat) := [(32, 32), (9, 9), (10, 10), (13, 13)]
+
+/-- Python `\s` under `re.ASCII`: `[ \t\n\r\f\v]` -/
+def asciiSpace (c : Char) : Bool := c.toNat == 32 || (9 ≤ c.toNat && c.toNat ≤ 13)
+
+def asciiSpaceRanges : List (Nat × Nat) := [(32, 32), (9, 13)]
+
+/-- read a pattern the way an XSD processor does: `\s` is the four characters, nothing else -/
+def xsdOfSet (cs : CSet) : CSet := if cs.space then ⟨cs.ranges ++ xsdSpaceRanges, false⟩ else cs
+
+def xsdOf : Rx → Rx
+  | .none => .none
+  | .eps => .eps
+  | .set cs => .set (xsdOfSet cs)
+  | .seq a b => .seq (xsdOf a) (xsdOf b)
+  | .alt a b => .alt (xsdOf a) (xsdOf b)
+  | .star a => .star (xsdOf a)
+
+/-- read a pattern the way Python does under `re.ASCII` -/
+def asciiOfSet (cs : CSet) : CSet := if cs.space then ⟨cs.ranges ++ asciiSpaceRanges, false⟩ else cs
+
+def asciiOf : Rx → Rx
+  | .none => .none
+  | .eps => .eps
+  | .set cs => .set (asciiOfSet cs)
+  | .seq a b => .seq (asciiOf a) (asciiOf b)
+  | .alt a b => .alt (asciiOf a) (asciiOf b)
+  | .star a => .star (asciiOf a)
+
+/-- the expression Python's engine actually runs for a pattern body -/
+def pyBody (ascii : Bool) (r : Rx) : Rx := if ascii then asciiOf r else r
+
+/-- Python's `\s` for the extracted call shape -/
+def pySpace (ascii : Bool) (c : Char) : Bool := if ascii then asciiSpace c else Acc.isSpace c
+
+/-- no character of the string is a Python space (in the reading the call shape selects) that is not an XSD space:
+    without `re.ASCII` this excludes U+00A0, U+0085, U+2003, U+001C–U+001F, `\v`, `\f` …; with `re.ASCII` only `\v`
+    and `\f`, which are not XML characters -/
+def plainFor (ascii : Bool) (s : List Char) : Bool := s.all fun c => !(pySpace ascii c) || xsdSpace c
+
+/-- `plainFor false` -/
+def plainSpaces (s : List Char) : Bool := s.all fun c => !(Acc.isSpace c) || xsdSpace c
+
 def lenOK (pc : PatCheck) (t target : List Char) : Bool :=
   match pc.test with
   | .fullLen => t.length == target.length
   | .noTest => true
 
 def patOK (E : Engine) (pc : PatCheck) (target : List Char) (p : PyPat) : Bool :=
-  match E p.body pc.fn target with
+  match E (pyBody pc.ascii p.body) pc.fn target with
   | some t => lenOK pc t target
   | none => false
 
@@ -211,27 +262,6 @@ def xsdValid (x : XsdType) (v : PyVal) : Bool :=
   && (match v.rat? with
       | some q => x.bounds.all (fun b => b.1.ok q b.2)
       | none => true)
-
-/-! ### the two `\s` -/
-
-/-- XSD `\s` -/
-def xsdSpace (c : Char) : Bool := c.toNat == 32 || c.toNat == 9 || c.toNat == 10 || c.toNat == 13
-
-def xsdSpaceRanges : List (Nat × Nat) := [(32, 32), (9, 9), (10, 10), (13, 13)]
-
-/-- read a pattern the way an XSD processor does: `\s` is the four characters, nothing else -/
-def xsdOfSet (cs : CSet) : CSet := if cs.space then ⟨cs.ranges ++ xsdSpaceRanges, false⟩ else cs
-
-def xsdOf : Rx → Rx
-  | .none => .none
-  | .eps => .eps
-  | .set cs => .set (xsdOfSet cs)
-  | .seq a b => .seq (xsdOf a) (xsdOf b)
-  | .alt a b => .alt (xsdOf a) (xsdOf b)
-  | .star a => .star (xsdOf a)
-
-/-- no character of the string is a Python space that is not an XSD space -/
-def plainSpaces (s : List Char) : Bool := s.all fun c => !(Acc.isSpace c) || xsdSpace c
 
 /-! ### which characters can end a match -/
 
